@@ -2,8 +2,9 @@
 
 Emits Gen/Power.lean:
   * NodeOperatingState members/values, default durations/countdowns of Node.ConfigSchema;
-  * the *shape* of Node.power_on / power_off / reset / apply_timestep as canonical strings (tests, assignments to
-    operating_state, interface loops, start-up/shut-down actions, countdown arithmetic, in source order);
+  * (the bodies of Node.power_on / power_off / reset / the countdown blocks of apply_timestep / the start-up and shut-down
+    actions are no longer pinned as strings here: harness/extract/power_prog.py translates them, Props/C12Prog.lean proves
+    them equal to the model's functions);
   * the guards of WiredNetworkInterface.enable / WirelessNetworkInterface.enable and the `enabled` entry test of every
     interface class's receive_frame / send_frame;
   * the node-is-on / node-is-off validators' predicates;
@@ -81,59 +82,6 @@ def _nic_loop(st: ast.For) -> Optional[str]:
             if f == f"{tgt}.{m}":
                 return f"nics.{m}"
     return None
-
-
-def shape(stmts: List[ast.stmt], where: str) -> str:
-    """Canonical one-line rendering of a statement list of the power methods."""
-    out: List[str] = []
-    for st in stmts:
-        if _is_log(st):
-            continue
-        if isinstance(st, ast.If):
-            t = _u(st.test)
-            a = shape(st.body, where)
-            b = shape(st.orelse, where) if st.orelse else ""
-            out.append(f"if({t})[{a}]" + (f"else[{b}]" if st.orelse else ""))
-        elif isinstance(st, ast.For):
-            tok = _nic_loop(st)
-            if tok is None:
-                raise ValueError(f"{where}: unrecognised loop `{ast.unparse(st)[:80]}`")
-            out.append(tok)
-        elif isinstance(st, ast.Assign) and len(st.targets) == 1:
-            out.append(f"{_u(st.targets[0])}={_u(st.value)}")
-        elif isinstance(st, ast.AugAssign) and isinstance(st.op, ast.Sub):
-            out.append(f"{_u(st.target)}-={_u(st.value)}")
-        elif isinstance(st, ast.Return):
-            out.append(f"ret {_u(st.value) if st.value else 'None'}")
-        elif isinstance(st, ast.Expr) and isinstance(st.value, ast.Call):
-            f = ast.unparse(st.value.func)
-            if f in ("self._start_up_actions", "self._shut_down_actions", "self.power_on", "self.power_off") and not st.value.args:
-                out.append(f.replace("self.", "") + "()")
-            elif f == "super().apply_timestep":
-                out.append("super")
-            else:
-                raise ValueError(f"{where}: unrecognised call `{ast.unparse(st)[:80]}`")
-        else:
-            raise ValueError(f"{where}: unrecognised statement `{ast.unparse(st)[:80]}`")
-    return ";".join(out)
-
-
-def _software_block_ok(st: ast.If) -> bool:
-    """the `if self.operating_state == ON:` tail of apply_timestep must drive services/applications from inside it"""
-    src = ast.unparse(st)
-    return ("self.services[service_id].apply_timestep" in src and "self.applications[application_id].apply_timestep" in src)
-
-
-def tick_shape(fn: ast.FunctionDef) -> str:
-    body = [s for s in fn.body if not _is_log(s)]
-    last = body[-1]
-    if not (isinstance(last, ast.If) and _u(last.test) == "operating_state == ON" and not last.orelse and _software_block_ok(last)):
-        raise ValueError("apply_timestep: the software block is not the trailing `if self.operating_state == ON:`")
-    # nothing outside that block may tick software
-    for s in body[:-1]:
-        if "services" in ast.unparse(s) or "applications" in ast.unparse(s):
-            raise ValueError("apply_timestep: software touched outside the ON block")
-    return shape(body[:-1], "apply_timestep") + ";if(operating_state == ON)[software]"
 
 
 def guard_list(fn: ast.FunctionDef, where: str) -> List[str]:
@@ -569,9 +517,14 @@ def _tick_token(st: ast.stmt, meth: str) -> Optional[str]:
             return tok
     if isinstance(st, ast.If):
         t = _u(st.test)
-        if t == "start_up_countdown > 0":
+        src = ast.unparse(st)
+        software = any(w in src for w in ("self.services", "self.applications", "self.processes", "self.file_system",
+                                          "node_scan_countdown", "red_scan_countdown"))
+        # the two power countdown blocks, recognised by the countdown they touch (what they DO is translated and proved
+        # equal to the model's tickUp / tickDown: C12_gen_tick_power_sem)
+        if not software and "start_up_countdown" in src and "shut_down_countdown" not in src:
             return "upBlock"
-        if t == "shut_down_countdown > 0":
+        if not software and "shut_down_countdown" in src and "start_up_countdown" not in src:
             return "downBlock"
         if t == "node_scan_countdown > 0" and not st.orelse:
             return "nodeScan"
@@ -755,26 +708,10 @@ def emit() -> str:
     for k in need:
         if k not in defaults:
             raise ValueError(f"Node.ConfigSchema.{k} has no literal default")
-    # --- shapes
-    sh_on = shape(find_method(node, "power_on").body, "power_on")
-    sh_off = shape(find_method(node, "power_off").body, "power_off")
-    sh_reset = shape(find_method(node, "reset").body, "reset")
-    sh_tick = tick_shape(find_method(node, "apply_timestep"))
-    # _start_up_actions / _shut_down_actions: which method is called on every service / application
-    def actions(name: str) -> str:
-        fn = find_method(node, name)
-        toks = []
-        for st in fn.body:
-            if _is_log(st):
-                continue
-            if (isinstance(st, ast.For) and len(st.body) == 1 and isinstance(st.body[0], ast.Expr)
-                    and isinstance(st.body[0].value, ast.Call)):
-                toks.append(f"{ast.unparse(st.iter)}:{ast.unparse(st.body[0].value.func).split('.')[-1]}")
-            else:
-                raise ValueError(f"{name}: unrecognised statement {ast.unparse(st)[:60]}")
-        return ";".join(toks)
-    sh_sd = actions("_shut_down_actions")
-    sh_su = actions("_start_up_actions")
+    # --- the power methods themselves (power_on / power_off / reset / the countdown blocks of apply_timestep / the start-up and
+    #     shut-down actions) are TRANSLATED, not spelt: harness/extract/power_prog.py -> Gen/PowerProg.lean, Props/C12Prog.lean.
+    #     Here only: the software block of apply_timestep is the trailing `if operating_state == ON` (guarded_statements below
+    #     classifies every top-level statement and raises on anything it does not know).
     # --- interfaces
     wired = guard_list(find_method(class_def(base, "WiredNetworkInterface"), "enable"), "WiredNetworkInterface.enable")
     air = parse("simulator/network/airspace.py")
@@ -825,15 +762,6 @@ def emit() -> str:
     lines.append(f"def defaultUpCd : Int := {int(defaults['start_up_countdown'])}")
     lines.append(f"def defaultDownCd : Int := {int(defaults['shut_down_countdown'])}")
     lines.append(f"def defaultResetting : Bool := {b(bool(defaults['is_resetting']))}")
-    lines.append("/-- canonical rendering of `Node.power_on` -/")
-    lines.append(f"def powerOnShape : String := {lean_str(sh_on)}")
-    lines.append("/-- canonical rendering of `Node.power_off` -/")
-    lines.append(f"def powerOffShape : String := {lean_str(sh_off)}")
-    lines.append(f"def resetShape : String := {lean_str(sh_reset)}")
-    lines.append("/-- canonical rendering of `Node.apply_timestep` -/")
-    lines.append(f"def tickShape : String := {lean_str(sh_tick)}")
-    lines.append(f"def shutDownActionsShape : String := {lean_str(sh_sd)}")
-    lines.append(f"def startUpActionsShape : String := {lean_str(sh_su)}")
     lines.append("/-- refusals of `WiredNetworkInterface.enable` before `self.enabled = True` -/")
     lines.append("def wiredEnableGuards : List String := [" + ", ".join(lean_str(g) for g in wired) + "]")
     lines.append("def wirelessEnableGuards : List String := [" + ", ".join(lean_str(g) for g in wireless) + "]")
